@@ -579,6 +579,8 @@ class Bf3File:
                 comp_comment = "Main Firmware"
             elif comptype == BF3TYPE.LOADER:
                 rev_intf_map = {v: k for k, v in BF3INTF.__dict__.items()}
+                if BF3TAG.INTF not in comp.description:
+                    raise Bf3FileFormatError("Loader firmware without interface")
                 intf = int.from_bytes(comp.description[BF3TAG.INTF], "big")
                 comp_comment = rev_intf_map[intf] + " Loader Firmware"
             elif comptype == BF3TYPE.PERIPHERAL:
